@@ -20,6 +20,8 @@ Solve2OK      == {"ok"}
 Solve2Pinned  == {"crash"}
 PbOK          == {"ok"}
 PbPinned      == {"crash"}
+IrOK          == {"ok"}
+IrPinned      == {"drift"}
 PbOff         == {FALSE}
 PbOn          == {TRUE}
 PbBoth        == {FALSE, TRUE}
